@@ -55,7 +55,7 @@ pub fn layouts(tree: &Tree, both_distractor_variants: bool) -> Vec<Layout> {
     out
 }
 
-fn dir_of(tree: &Tree, m: usize) -> PathBuf {
+pub fn dir_of(tree: &Tree, m: usize) -> PathBuf {
     // directory that holds the children of m
     let p = tree.path(m);
     let mut d = PathBuf::new();
